@@ -27,6 +27,10 @@ RULE = ("histories = one reporter dictionary (model / agent / agent-type reporte
         "tuples of tuples holding lists, dict of arrays, set, deque, a dataclass-like object, 2-D and structured arrays, a view of an "
         "array the model keeps writing to - mutated in place after the collect, and 4 SCALE cases (255/256/257/1025 agents, up to 257 "
         "collects, tables of 256..1025 rows, values beyond 2^53 / 2^62 / 2^63; thorough and the enumerator after a break go to 4097); "
+        "and 70 USER-CODE histories (oracle-only): reporters of every form (property through an attribute name, function, bound method "
+        "of the model, [function, args]) at model / agent / agent-type level that raise StopIteration (bare next()), IndexError, KeyError, "
+        "AttributeError, TypeError, GeneratorExit or a custom exception for the first / a middle / the last / all agents in some states, "
+        "or re-enter the API during collect (add_table_row, removing / creating an agent); the caller catches and carries on; "
         "a second DataCollector built from the same dictionaries collects "
         "at the end; non-trivial = at least 2 collects and one reporter; distinct = by SHA1 of the history")
 TRUSTED_BASE = [
@@ -253,7 +257,44 @@ def gen_cases(rng, tier):
     for _ in range(60 if tier == "quick" else 600):
         cases.append(_gen_container_case(rng))
     cases += _scale_cases(rng, 4 if tier == "quick" else 24)
+    for _ in range(70 if tier == "quick" else 700):
+        cases.append(_gen_usercode_case(rng))
     return cases
+
+
+def _gen_usercode_case(rng):
+    level = rng.choice(["agent", "agent", "type", "model"])
+    form = rng.choice(["prop", "fun", "method", "args"])
+    exc = rng.choice(["StopIteration", "StopIteration", "IndexError", "KeyError", "AttributeError", "TypeError", "GeneratorExit", "custom"])
+    if level == "model" and form == "prop" and exc == "AttributeError":
+        exc = "KeyError"          # (hasattr / getattr(.., None) of the string form treat AttributeError as "no such attribute")
+    n = rng.randint(1, 5)
+    ops, live, nxt = [], list(range(1, n + 1)), n + 1
+    for _ in range(rng.randint(5, 14)):
+        p = rng.random()
+        if p < 0.3:
+            ops.append(["collect"])
+        elif p < 0.45 and live:
+            k = rng.choice([1, 1, 2, len(live)])
+            ops.append(["arm", sorted(rng.sample(live, min(k, len(live))))])     # first, middle, last or all agents
+        elif p < 0.55:
+            ops.append(["disarm"])
+        elif p < 0.65:
+            ops.append(["step"])
+        elif p < 0.75:
+            ops.append(["reenter", rng.choice([0, 1, 1, 2, 3])])
+        elif p < 0.83 and live:
+            a = rng.choice(live)
+            live.remove(a)
+            ops.append(["remove", a])
+        elif p < 0.92:
+            ops.append(["create", rng.randint(20, 40)])
+            live.append(nxt)
+            nxt += 1
+        elif live:
+            ops.append(["setx", rng.choice(live), rng.randint(0, 99)])
+    ops += [["disarm"], ["reenter", 0], ["collect"], ["step"], ["collect"]]      # the NEXT collects must be complete
+    return {"kind": "usercode", "exc": exc, "level": level, "form": form, "n": n, "ops": ops}
 
 
 def _gen_container_case(rng):
@@ -387,6 +428,8 @@ def _enumerate_scale(tier, broken):
         yield from _scale_cases(rng, 16)
         for _ in range(400):
             yield _gen_container_case(rng)
+        for _ in range(600):
+            yield _gen_usercode_case(rng)
 
 
 def enumerate_cases(tier, broken=False):
@@ -988,7 +1031,207 @@ def _run_scale(case):
     return {"obs": [[0] for _ in case["ops"]], "failures": failures, "model": False}
 
 
+class _UserError(Exception):
+    pass
+
+
+_EXCS = {"StopIteration": StopIteration, "IndexError": IndexError, "KeyError": KeyError, "AttributeError": AttributeError,
+         "TypeError": TypeError, "GeneratorExit": GeneratorExit, "custom": _UserError, "ValueError": ValueError}
+
+
+def _raise_user(name):
+    if name == "StopIteration":
+        return next(iter(()))            # the bare next() "first match" idiom finding nothing
+    if name == "IndexError":
+        return [][0]
+    if name == "KeyError":
+        return {}[1]
+    raise _EXCS[name]("user reporter failed")
+
+
+def _run_usercode(case):
+    """USER CODE in the loop (harness/USERCODE_NOTE.md A): reporters of every form at model / agent / agent-type level that raise for
+    SOME agents in SOME states (StopIteration, IndexError, KeyError, AttributeError, TypeError, GeneratorExit, a custom class) or
+    re-enter the API during collect (add_table_row, remove / create agents); the caller catches and carries on.  Demanded (what HEAD
+    does): a collect that returns normally recorded exactly one row per registered agent with the values the reporters returned and
+    one value per model reporter; a collect that raised left the records of the current step either untouched or complete, other
+    steps and tables untouched, no model_vars list changed by more than one appended value; the NEXT collects are complete."""
+    import types
+
+    import mesa
+    from mesa.datacollection import DataCollector
+
+    exc, level, form = case["exc"], case["level"], case["form"]
+    st = {"armed": False, "bad": set(), "reenter": 0, "did": False, "raised_in_reporter": False, "returns": {}}
+    reg, tshadow = [], []
+
+    class UModel(mesa.Model):
+        @property
+        def pm(self):
+            return core_m(self)
+
+        def rep_a(self, agent):        # a bound method of the model taking the agent
+            return core_a(agent)
+
+        def rep_m(self):
+            return core_m(self)
+
+    class UA(mesa.Agent):
+        def __init__(self, model, x):
+            super().__init__(model)
+            self.x = x
+
+        @property
+        def px(self):
+            return core_a(self)
+
+    model = UModel()
+
+    def reenter(agent):
+        if st["reenter"] == 1:
+            dc.add_table_row("t", {"a": agent.unique_id})
+            tshadow.append(agent.unique_id)
+        elif st["reenter"] == 2 and not st["did"]:
+            others = [a for a in reg if a is not agent]
+            if others:
+                st["did"] = True
+                others[-1].remove()
+                reg.remove(others[-1])
+        elif st["reenter"] == 3 and not st["did"]:
+            st["did"] = True
+            reg.append(UA(model, 50))
+
+    def core_a(agent):
+        reenter(agent)
+        if st["armed"] and agent.unique_id in st["bad"]:
+            st["raised_in_reporter"] = True
+            _raise_user(exc)
+        st["returns"][agent.unique_id] = agent.x
+        return agent.x
+
+    def core_m(m):
+        if level == "model" and st["armed"]:
+            st["raised_in_reporter"] = True
+            _raise_user(exc)
+        st["returns"]["model"] = len(m.agents) * 10 + m.steps
+        return st["returns"]["model"]
+
+    def areporter():
+        if form == "prop":
+            return "px"
+        if form == "fun":
+            return lambda a: core_a(a)
+        if form == "method":
+            return model.rep_a
+        return [lambda a, k: core_a(a) + k - k, [3]]
+
+    def mreporter():
+        if level != "model":
+            return lambda m: core_m(m)
+        if form == "prop":
+            return "pm"
+        if form == "fun":
+            return lambda m: core_m(m)
+        if form == "method":
+            return model.rep_m
+        return [lambda m_: core_m(m_), [model]]
+
+    for j in range(case["n"]):
+        reg.append(UA(model, 10 + j))
+    dc = DataCollector(model_reporters={"first": lambda m: m.steps, "m": mreporter(), "last": lambda m: -m.steps},
+                       agent_reporters={"v": areporter()} if level != "type" else {"id": "unique_id"},
+                       agenttype_reporters={UA: {"v": areporter()}} if level == "type" else None, tables={"t": ["a"]})
+    obs, failures = [], []
+
+    def fail(key, i, what):
+        if not any(f["key"] == key for f in failures):
+            failures.append({"key": key, "op": i, "what": what[:700]})
+
+    def recs():
+        a = {s_: [tuple(r) for r in rows] for s_, rows in dc._agent_records.items()}
+        t = {s_: [tuple(r) for r in inner.get(UA, [])] for s_, inner in dc._agenttype_records.items()}
+        return a, t
+
+    for i, op in enumerate(case["ops"]):
+        kind = op[0]
+        try:
+            if kind == "arm":
+                st["armed"], st["bad"] = True, set(op[1])
+            elif kind == "disarm":
+                st["armed"] = False
+            elif kind == "reenter":
+                st["reenter"] = op[1]
+            elif kind == "step":
+                model.steps += 1
+            elif kind == "remove":
+                for a in [a for a in reg if a.unique_id == op[1]]:
+                    a.remove()
+                    reg.remove(a)
+            elif kind == "create":
+                reg.append(UA(model, op[1]))
+            elif kind == "setx":
+                for a in reg:
+                    if a.unique_id == op[1]:
+                        a.x = op[2]
+            elif kind == "collect":
+                st["did"], st["raised_in_reporter"], st["returns"] = False, False, {}
+                a0, t0 = recs()
+                lens0 = {k: len(v) for k, v in dc.model_vars.items()}
+                tb0 = list(dc.tables["t"]["a"])
+                t_before = len(tshadow)
+                now = model.steps
+                try:
+                    dc.collect(model)
+                    raised = None
+                except BaseException as e:  # noqa: BLE001  (GeneratorExit is a BaseException)
+                    raised = e
+                a1, t1 = recs()
+                lens1 = {k: len(v) for k, v in dc.model_vars.items()}
+                key_rows = "v" if level != "type" else None
+                want_a = [(now, a.unique_id, (st["returns"].get(a.unique_id) if level != "type" else a.unique_id)) for a in reg]
+                want_t = [(now, a.unique_id, st["returns"].get(a.unique_id)) for a in reg]
+                ctx = f"{case['level']}-level reporter, form {form}, raising {exc} for {sorted(st['bad'])} (armed={st['armed']}, reenter={st['reenter']})"
+                # tables: only what the reporter itself added
+                if list(dc.tables["t"]["a"]) != tb0 + tshadow[t_before:]:
+                    fail("C12/collect/raising-collect-touched-other-records", i, f"{ctx}: table column {dc.tables['t']['a']}, expected {tb0 + tshadow[t_before:]}")
+                other = lambda d: {s_: r for s_, r in d.items() if s_ != now}   # noqa: E731
+                if other(a1) != other(a0) or other(t1) != other(t0):
+                    fail("C12/collect/raising-collect-touched-other-records", i, f"{ctx}: records of other steps changed")
+                if any(not (0 <= lens1[k] - lens0[k] <= 1) for k in lens0):
+                    fail("C12/collect/raising-collect-model-vars", i, f"{ctx}: model_vars lengths {lens0} -> {lens1}")
+                if raised is None:
+                    if st["raised_in_reporter"] and not (form == "prop" and exc == "AttributeError"):
+                        fail("C12/collect/reporter-exception-swallowed", i,
+                             f"{ctx}: a reporter raised {exc} but collect() returned normally; _agent_records[{now}] = {a1.get(now)}, "
+                             f"registered agents {[a.unique_id for a in reg]}")
+                    if any(lens1[k] != lens0[k] + 1 for k in lens0):
+                        fail("C12/collect/model-var-count", i, f"{ctx}: collect returned normally, model_vars lengths {lens0} -> {lens1}")
+                    elif dc.model_vars["m"][-1] != st["returns"].get("model"):
+                        fail("C12/collect/model-var-value", i, f"{ctx}: stored {dc.model_vars['m'][-1]}, the reporter returned {st['returns'].get('model')}")
+                    if a1.get(now) != want_a:
+                        fail("C12/collect/agent-rows", i, f"{ctx}: collect returned normally; _agent_records[{now}] = {a1.get(now)}, one row per "
+                                                          f"registered agent with the values the reporter returned is {want_a}")
+                    if level == "type" and t1.get(now) != want_t:
+                        fail("C12/collect/agenttype-rows", i, f"{ctx}: _agenttype_records[{now}][UA] = {t1.get(now)}, expected {want_t}")
+                else:
+                    if not st["raised_in_reporter"] and st["reenter"] not in (2, 3):
+                        fail("C12/collect/unexpected-exception", i, f"{ctx}: collect raised {type(raised).__name__}: {raised} although no reporter raised")
+                    # the current step: untouched, or complete
+                    if a1.get(now) != a0.get(now) and level != "type" and a1.get(now) != want_a:
+                        fail("C12/collect/raising-collect-partial-agent-records", i,
+                             f"{ctx}: collect raised {type(raised).__name__}; _agent_records[{now}] went from {a0.get(now)} to {a1.get(now)}")
+                    if t1.get(now) not in (t0.get(now), want_t, [], None):
+                        fail("C12/collect/raising-collect-partial-agent-records", i,
+                             f"{ctx}: collect raised {type(raised).__name__}; _agenttype_records[{now}][UA] went from {t0.get(now)} to {t1.get(now)}")
+        except Exception as e:  # noqa: BLE001
+            fail(f"C12/{kind}/unexpected-exception", i, f"{op} raised {type(e).__name__}: {e}")
+        obs.append([0])
+    return {"obs": obs, "failures": failures, "model": False}
+
+
 def run_impl(case):
+    if case.get("kind") == "usercode":
+        return _run_usercode(case)
     if case.get("kind") == "containers":
         return _run_containers(case)
     if case.get("kind") == "scale":
@@ -1438,7 +1681,7 @@ def _c_op(op):
 
 
 def coq_case(case):
-    if case.get("kind") in ("containers", "scale"):      # oracle-only streams: nothing for the Z-valued model to evaluate
+    if case.get("kind") in ("containers", "scale", "usercode"):      # oracle-only streams: nothing for the Z-valued model to evaluate
         return "{| k_cfg := {| c_mreps := []; c_areps := []; c_treps := []; c_tables := [] |}; k_ops := [] |}"
     return f"{{| k_cfg := {_c_cfg(case['cfg'])}; k_ops := {L.lst([_c_op(o) for o in case['ops']])} |}}"
 
@@ -1449,6 +1692,8 @@ def op_kinds(case):
                [f"container/init/kind{k}" for _, k, _ in case["init"]] + [f"container/reporter/{f}" for _, f in case["reps"]]
     if case.get("kind") == "scale":
         return [f"scale/agents={case['agents']}/collects={case['collects']}/rows={case['rows']}"]
+    if case.get("kind") == "usercode":
+        return [f"usercode/{case['level']}/{case['form']}/{case['exc']}"] + [f"usercode/{op[0]}" + (f"/{op[1]}" if op[0] == "reenter" else "") for op in case["ops"]]
     out = []
     for op in case["ops"]:
         k = op[0]
@@ -1465,7 +1710,7 @@ def op_kinds(case):
 
 
 def nontrivial(case):
-    if case.get("kind") in ("containers", "scale"):
+    if case.get("kind") in ("containers", "scale", "usercode"):
         return True
     cfg = case["cfg"]
     ncol = sum(1 for op in case["ops"] if op[0] == "collect")
